@@ -279,7 +279,33 @@ def const_int(fn, v):
 def ret_values(fn):
     return [(i, i.ops[0] if i.ops else None) for i in fn.insts() if i.op == 'ret']
 
-def possible_consts(fn, v, via=None, seen=None, facts=None, known=None):
+def truth_of(fn, c, truth, depth=0):
+    """truth value of i1 operand c given `truth` (i1 SSA name -> bool), following negations and re-written comparisons"""
+    if c in ('true', 'false'):
+        return c == 'true'
+    if not truth or depth > 4:
+        return None
+    if c in truth:
+        return truth[c]
+    d = fn.defs.get(c)
+    if d is None:
+        return None
+    if d.op == 'xor' and 'true' in d.ops:
+        t = truth_of(fn, d.ops[0] if d.ops[1] == 'true' else d.ops[1], truth, depth + 1)
+        return None if t is None else not t
+    if d.op == 'icmp':
+        from .guards import NEG
+        for o, tv in truth.items():
+            e = fn.defs.get(o)
+            if e is not None and e.op == 'icmp' and e is not d:
+                same = (e.ops == d.ops) or (e.ops == d.ops[::-1] and d.pred in ('eq', 'ne'))
+                if same and e.pred == d.pred:
+                    return tv
+                if same and NEG.get(e.pred) == d.pred:
+                    return not tv
+    return None
+
+def possible_consts(fn, v, via=None, seen=None, facts=None, known=None, truth=None):
     """set of python ints / descriptor strings value v may take; incomings of phis that sit inside the region `via` are
     restricted to predecessor blocks in `via`; `known` maps SSA values to constants established by dominating edges"""
     seen = seen if seen is not None else set()
@@ -299,14 +325,19 @@ def possible_consts(fn, v, via=None, seen=None, facts=None, known=None):
         for val, lab in d.incoming:
             pb = fn.blocks[lab]
             if via is None or not inside or pb in via:
-                out |= possible_consts(fn, val, via, seen, facts, known)
+                out |= possible_consts(fn, val, via, seen, facts, known, truth)
         return out
     if d.op in ('sext', 'zext', 'trunc'):
-        return possible_consts(fn, d.ops[0], via, seen, facts, known)
+        if d.optys and d.optys[0] == 'i1' and truth_of(fn, d.ops[0], truth) is not None:
+            return {(1 if d.op == 'zext' else -1) if truth_of(fn, d.ops[0], truth) else 0}
+        return possible_consts(fn, d.ops[0], via, seen, facts, known, truth)
     if d.op == 'select':
-        return possible_consts(fn, d.ops[1], via, seen, facts, known) | possible_consts(fn, d.ops[2], via, seen, facts, known)
+        t = truth_of(fn, d.ops[0], truth)
+        if t is not None:
+            return possible_consts(fn, d.ops[1] if t else d.ops[2], via, seen, facts, known, truth)
+        return possible_consts(fn, d.ops[1], via, seen, facts, known, truth) | possible_consts(fn, d.ops[2], via, seen, facts, known, truth)
     if d.op == 'sub' and d.ops[0] == '0':
-        inner = possible_consts(fn, d.ops[1], via, seen, facts, known)
+        inner = possible_consts(fn, d.ops[1], via, seen, facts, known, truth)
         return {(-x if isinstance(x, int) else 'neg:' + str(x)) for x in inner}
     if d.op == 'call':
         return {'call:' + d.callee}
